@@ -31,6 +31,7 @@ func init() {
 			{ID: "C15-R8", Title: "comparison functions are lexicographic where they compare two keys (shared with C05-R5)", Floor: 1, Run: lexicographicBoth},
 			{ID: "C15-R9", Title: "container equality tests key presence with a two-value lookup", Floor: 2, Run: equalityChecksPresence},
 			{ID: "C15-R10", Title: "Compare/Equals convert floats to integers only under a range test", Floor: 5, Run: floatToIntGuarded},
+			{ID: "C15-R11", Title: "Compare/Equals/HashKey push no operand through a lossy conversion", Floor: 20, Run: lossyConversionsInComparisons},
 		},
 	})
 }
